@@ -160,8 +160,124 @@ impl FixtureDatabase {
                     self.collect_local_variables(&try_stmt.orelse, line_index, local_vars);
                     self.collect_local_variables(&try_stmt.finalbody, line_index, local_vars);
                 }
+                // `import x` / `from m import x` inside the function binds a local name
+                Stmt::Import(import_stmt) => {
+                    let line =
+                        self.get_line_from_offset(import_stmt.range.start().to_usize(), line_index);
+                    for alias in &import_stmt.names {
+                        let bound = alias.asname.as_ref().unwrap_or(&alias.name);
+                        let first = bound.split('.').next().unwrap_or(bound).to_string();
+                        Self::record_local_binding(local_vars, first, line);
+                    }
+                }
+                Stmt::ImportFrom(import_from) => {
+                    let line =
+                        self.get_line_from_offset(import_from.range.start().to_usize(), line_index);
+                    for alias in &import_from.names {
+                        let bound = alias.asname.as_ref().unwrap_or(&alias.name);
+                        Self::record_local_binding(local_vars, bound.to_string(), line);
+                    }
+                }
                 _ => {}
             }
+            // `(name := value)` anywhere in the statement's own expressions binds `name`
+            self.collect_walrus_targets_in_stmt(stmt, line_index, local_vars);
+        }
+    }
+
+    /// Record the targets of assignment expressions found in the expressions that belong
+    /// directly to `stmt` (nested statements are handled by the recursion of the caller).
+    fn collect_walrus_targets_in_stmt(
+        &self,
+        stmt: &Stmt,
+        line_index: &[usize],
+        local_vars: &mut HashMap<String, usize>,
+    ) {
+        let mut exprs: Vec<&Expr> = Vec::new();
+        match stmt {
+            Stmt::Expr(s) => exprs.push(&s.value),
+            Stmt::Assign(s) => exprs.push(&s.value),
+            Stmt::AugAssign(s) => exprs.push(&s.value),
+            Stmt::AnnAssign(s) => {
+                if let Some(v) = &s.value {
+                    exprs.push(v);
+                }
+            }
+            Stmt::Return(s) => {
+                if let Some(v) = &s.value {
+                    exprs.push(v);
+                }
+            }
+            Stmt::If(s) => exprs.push(&s.test),
+            Stmt::While(s) => exprs.push(&s.test),
+            Stmt::Assert(s) => exprs.push(&s.test),
+            Stmt::For(s) => exprs.push(&s.iter),
+            Stmt::With(s) => {
+                for item in &s.items {
+                    exprs.push(&item.context_expr);
+                }
+            }
+            _ => {}
+        }
+        for expr in exprs {
+            self.collect_walrus_targets(expr, line_index, local_vars);
+        }
+    }
+
+    #[allow(clippy::only_used_in_recursion)]
+    fn collect_walrus_targets(
+        &self,
+        expr: &Expr,
+        line_index: &[usize],
+        local_vars: &mut HashMap<String, usize>,
+    ) {
+        match expr {
+            Expr::NamedExpr(named) => {
+                if let Expr::Name(target) = named.target.as_ref() {
+                    let line =
+                        self.get_line_from_offset(named.range.start().to_usize(), line_index);
+                    Self::record_local_binding(local_vars, target.id.to_string(), line);
+                }
+                self.collect_walrus_targets(&named.value, line_index, local_vars);
+            }
+            Expr::Call(call) => {
+                self.collect_walrus_targets(&call.func, line_index, local_vars);
+                for arg in &call.args {
+                    self.collect_walrus_targets(arg, line_index, local_vars);
+                }
+                for keyword in &call.keywords {
+                    self.collect_walrus_targets(&keyword.value, line_index, local_vars);
+                }
+            }
+            Expr::BoolOp(boolop) => {
+                for value in &boolop.values {
+                    self.collect_walrus_targets(value, line_index, local_vars);
+                }
+            }
+            Expr::BinOp(binop) => {
+                self.collect_walrus_targets(&binop.left, line_index, local_vars);
+                self.collect_walrus_targets(&binop.right, line_index, local_vars);
+            }
+            Expr::UnaryOp(unaryop) => {
+                self.collect_walrus_targets(&unaryop.operand, line_index, local_vars);
+            }
+            Expr::Compare(compare) => {
+                self.collect_walrus_targets(&compare.left, line_index, local_vars);
+                for comparator in &compare.comparators {
+                    self.collect_walrus_targets(comparator, line_index, local_vars);
+                }
+            }
+            Expr::Tuple(tuple) => {
+                for elt in &tuple.elts {
+                    self.collect_walrus_targets(elt, line_index, local_vars);
+                }
+            }
+            Expr::List(list) => {
+                for elt in &list.elts {
+                    self.collect_walrus_targets(elt, line_index, local_vars);
+                }
+            }
+            _ => {}
         }
     }
 
